@@ -244,7 +244,7 @@ def tlc(module, cfg=None, workers=8, timeout=600, simulate=None, depth=None, env
     jopts = ['-XX:+UseParallelGC', '-Xmx' + heap, '-Xss1g' if deque else '-Xss64m']
     if deque:
         jopts.append('-Dtlc2.tool.queue.IStateQueue=StateDeque')
-    cmd = ['timeout', str(timeout), 'java'] + jopts + ['-cp', TLA_JAR, 'tlc2.TLC', '-workers', str(workers),
+    cmd = ['timeout', '-k', '15', str(timeout), 'java'] + jopts + ['-cp', TLA_JAR, 'tlc2.TLC', '-workers', str(workers),
                                                        '-metadir', meta, '-cleanup', '-noGenerateSpecTE',
                                                        '-config', cfg + '.cfg']
     if coverage and not simulate:
